@@ -256,7 +256,7 @@ def B_trace(name, fam, n, maxops=10, mode='value', legacy=False, plain=False, ca
     return run
 
 
-V_ALL = list(range(1, 13))
+V_ALL = list(range(1, 14))
 S_ALL = list(range(1, 12))
 O_ALL = list(range(1, 12))
 INV = ('DocOK', 'CopyBound', 'LimitZeroNeverFails', 'SkipEquivalent', 'EnsureLookup')
@@ -332,7 +332,7 @@ PLANS = {
         '*AccumulatedCopySizeError and no document), total, total+1, total+1000 (must succeed with the same document), through '
         'the per-call option and through the package default; behaviours under fixed limits 7/12/20 are compared with the '
         'specification counter (sizes as spec/JsonEnc.tla spells values; a copied null weighs 0 or 4)',
-        ['Copy', 'CopyOverLimit', 'CopyProbe_run', 'CopyProbe_err'],
+        ['Copy', 'CopyOverLimit', 'CopyProbe_run', 'CopyProbe_err', 'CopyProbe_reuse'],
         ['the size of a copied value is EncLen of spec/JsonEnc.tla (compact, HTML escapes iff enabled); inputs are spelled '
          'canonically or with extra white space only, so that the size in the output is that size']),
     'C13': P(
@@ -347,7 +347,8 @@ PLANS = {
          'MoveFromAbsentMember', 'ReplaceAbsentMember', 'SkipPairs_1']),
     'C14': P(
         [AP('d1', S_ALL, [5, 6, 7, 11], [1, 2, 6, 8, 9], [1, 2, 9], 1),
-         AP('d2', [8, 9, 5], [5, 6], [1, 2, 6], [1, 9], 2)],
+         AP('d2', [8, 9, 5], [5, 6], [1, 2, 6], [1, 9], 2),
+         AP('d2w', [8, 9], [5], [1, 6, 7], [1, 6], 2, wide=2, kinds=['add', 'test', 'remove'])],
         [AP('d1', S_ALL, [5, 6, 7, 11], V_ALL, [1, 2, 9], 1),
          AP('d2', [1, 2, 5, 6, 8, 9, 10], [5, 6], [1, 2, 6, 8, 9], [1, 2, 9], 2, wide=2, timeout=9000)],
         'with EnsurePathExistsOnAdd the output is compared with the specification document, in which TLC has checked that the '
@@ -488,8 +489,9 @@ TEXT_ASSUME = [
 
 PLANS.update({
     'C16': {
-        'quick': [A_words('w4', 4, 'full'), T_depth('depth6', 6)],
-        'thorough': [A_words('w5', 5, 'full', timeout=9000), A_words('w7s', 7, 'tiny', timeout=9000), T_depth('depth7', 7)],
+        'quick': [A_words('w4', 4, 'full'), A_words('tok7', 7, 'token'), A_decode('dec', 1), T_depth('depth6', 6)],
+        'thorough': [A_words('w5', 5, 'full', timeout=9000), A_words('w7s', 7, 'tiny', timeout=9000), A_words('tok8', 8, 'token', timeout=9000),
+                     A_decode('dec', 2), T_depth('depth7', 7)],
         'rule': 'TLC enumerates every word up to the stated length (extending viable prefixes only, so first-error words are included), checks '
                 'on the specification that the scanner automaton (Scanner.tla, a transcription of scanner.go) accepts exactly the texts of '
                 'the declarative RFC 8259 grammar (JsonText.tla) and that Compact/Indent accept the same language; every word, bare and '
@@ -497,7 +499,10 @@ PLANS.update({
                 'MergePatch (both positions), MergeMergePatches (both), CreateMergePatch, Equal, whose accept/reject must equal the '
                 'specification verdict composed with the shape each entry point requires; the nesting limit: TLC checks with MaxDepth = 3 that '
                 'automaton and grammar accept nesting d exactly when d <= MaxDepth (all words to length 6/7 over the structural alphabet), and '
-                'array/object nestings of depth 9999, 10000, 10001 are given to the real entry points; distinct_nontrivial counts words',
+                'array/object nestings of depth 9999, 10000, 10001 are given to the real entry points; whole-token words (tok) reach trailing commas and '
+                'missing colons; the patch-document universe of C11 (values such as 1e400 and -2.5E+999 included) is run as well-formed texts of the '
+                'right shape that DecodePatch must accept; the process-wide sync.Pools are emptied every 40 ms so that fresh pooled decoder states '
+                'are used throughout; distinct_nontrivial counts words',
         'exhaustive': True, 'assumptions': TEXT_ASSUME,
         'required_labels': {t: ['Word_invalid', 'Word_valid_obj', 'Word_valid_arr', 'Word_valid_num', 'Word_valid_str', 'Word_valid_null',
                                 'Depth_arr_true', 'Depth_arr_false', 'Depth_obj_true', 'Depth_obj_false'] for t in ('quick', 'thorough')},
